@@ -30,6 +30,45 @@ def _is_reassigned(fn, var):
     return False
 
 
+def _too_large_message(fn, err_type):
+    for blk in ca.walk(fn):
+        if blk.get('kind') != 'CompoundStmt':
+            continue
+        decls = [d for st in blk.get('inner', []) if st.get('kind') == 'DeclStmt' for d in st.get('inner', [])
+                 if d.get('kind') == 'VarDecl' and d.get('name') == 'big_size']
+        if not decls:
+            continue
+        for c in ca.walk(blk):
+            if c.get('kind') == 'CallExpr' and ca.callee_name(c) == 'cop_send':
+                args = c['inner'][1:]
+                tyname = [n.get('referencedDecl', {}).get('name') for n in ca.walk(args[1]) if n.get('kind') == 'DeclRefExpr']
+                if len(args) >= 4 and (ca.const_eval(args[1]) == err_type or tyname == ['COP_MSG_FFI_ERROR']):
+                    lit = [n for n in ca.walk(args[2]) if n.get('kind') == 'StringLiteral']
+                    ln = ca.const_eval(args[3])
+                    if lit and ln is not None:
+                        import ast
+                        text = ast.literal_eval(lit[0]['value'])
+                        if 'OOM' in text:
+                            continue
+                        return text.encode('latin-1')[:ln]
+    raise RuntimeError('handle_ffi_req: no FFI_ERROR answer for a result that fits no buffer (the model describes one)')
+
+
+def _depth_limit(fd):
+    lims = set()
+    for fn in fd.values():
+        for n in ca.walk(fn):
+            if n.get('kind') == 'BinaryOperator' and n.get('opcode') in ('>=', '>'):
+                names = [m.get('referencedDecl', {}).get('name') for m in ca.walk(n['inner'][0]) if m.get('kind') == 'DeclRefExpr']
+                if names == ['depth']:
+                    v = ca.const_eval(n['inner'][1])
+                    if v is not None:
+                        lims.add(v if n['opcode'] == '>=' else v + 1)
+    if len(lims) != 1:
+        raise RuntimeError('nesting limit of the value decoder not found (the model describes one): %s' % lims)
+    return lims.pop()
+
+
 def _loop_arg_cap(fn):
     """the N of `for (...; i < argc && i < N; ...)` around the (de)serialize call."""
     caps = set()
@@ -67,25 +106,43 @@ def generate(b):
         raise RuntimeError('no function of vm_ffi.c builds the co-process request with cop_serialize_value')
     f2 = ca.functions(b, 'src/nanovm/cop_main.c', ['handle_ffi_req'])['handle_ffi_req']
     notes = []
+    MAXP = kv['COP_MAX_PAYLOAD']
     try:
         kv['REQ_BUF_SIZE'] = _array_len(f1, 'payload')
     except RuntimeError:
-        # `payload` is no longer a fixed array (heap buffer grown on demand): the only remaining bound is the protocol's
-        kv['REQ_BUF_SIZE'] = kv['COP_MAX_PAYLOAD']
-        notes.append('REQ_BUF_SIZE: `payload` is not a fixed-size array in %s; bound = COP_MAX_PAYLOAD' % f1['name'])
+        # `payload` is a pointer: the request starts in the fixed array `stack_payload` and the capacity is doubled while it is
+        # below COP_MAX_PAYLOAD (loop `while (n == 0 && cap < COP_MAX_PAYLOAD)`); the largest capacity ever tried is the bound
+        c = _array_len(f1, 'stack_payload')
+        if not _is_reassigned(f1, 'cap'):
+            raise RuntimeError('request buffer of %s: neither a fixed array nor a growing capacity' % f1['name'])
+        while c < MAXP:
+            c *= 2
+        kv['REQ_BUF_SIZE'] = c
+        notes.append('REQ_BUF_SIZE: %s grows its buffer by doubling from %d while below COP_MAX_PAYLOAD; largest capacity = %d'
+                     % (f1['name'], _array_len(f1, 'stack_payload'), c))
     kv['REQ_MAX_ARGS'] = _loop_arg_cap(f1)
     kv['COP_ARGS_MAX'] = _loop_arg_cap(f2)
     kv['COP_ARGS_ARRAY'] = _array_len(f2, 'args')
     kv['COP_REPLY_STACK_BUF'] = _array_len(f2, 'stack_buf')
     kv['COP_REPLY_BIG_BUF'] = _array_len(f2, 'big_size')
     if _is_reassigned(f2, 'big_size'):
-        kv['COP_REPLY_BIG_BUF'] = kv['COP_MAX_PAYLOAD']
-        notes.append('COP_REPLY_BIG_BUF: big_size is grown in a loop in handle_ffi_req; bound = COP_MAX_PAYLOAD')
+        c = kv['COP_REPLY_BIG_BUF']
+        while c * 2 <= MAXP:
+            c *= 2
+        notes.append('COP_REPLY_BIG_BUF: big_size starts at %d and is doubled while <= COP_MAX_PAYLOAD in handle_ffi_req; largest buffer tried = %d'
+                     % (kv['COP_REPLY_BIG_BUF'], c))
+        kv['COP_REPLY_BIG_BUF'] = c
+    # what the co-process sends when the result fits no buffer: the FFI_ERROR text in the block that declares big_size
+    msg = _too_large_message(f2, kv['COP_MSG_FFI_ERROR'])
+    # nesting limit of the decoder: the constant `depth` is compared with in the function that decodes values
+    fd = ca.functions(b, 'src/nanovm/cop_protocol.c', ['deserialize_value_at', 'cop_deserialize_value'])
+    kv['COP_MAX_NESTING'] = _depth_limit(fd)
     v = ['(* GENERATED by tools/gen/gen_cop.py from /repo/src/nanovm/{cop_protocol.h,vm_ffi.c,cop_main.c} + nanoisa/isa.h -- do not edit *)',
-         'From Coq Require Import NArith.', 'Local Open Scope N_scope.', '']
+         'From Coq Require Import NArith List.', 'Import ListNotations.', 'Local Open Scope N_scope.', '']
     for n_ in notes:
         v.append('(* %s *)' % n_)
     for k in kv:
         v.append('Definition %s : N := %d.' % (k, kv[k]))
+    v.append('Definition COP_REPLY_TOO_LARGE_MSG : list N := [%s].   (* %r *)' % ('; '.join(str(x) for x in msg), msg.decode('latin-1')))
     v.append('')
     return write_if_changed(os.path.join(GEN_DIR, 'CopConst.v'), '\n'.join(v))
